@@ -44,6 +44,20 @@ def jobs(tier, seed):
             for cfg in ("L-gas", "V-O2"):
                 J.append({"id": f"C02/G/same-behaviour-across-targets[{tid};{cfg};cancun~paris]", "fn": "vverif.contracts.relational:job_rel_evm", "args": (tid, src, cfg, "cancun", "paris"),
                           "functions": R.FUNCS, "engine": "GenVC"})
+    # every --disable-<optimisation> flag, two inline thresholds and debug mode against the plain configuration
+    # (--disable-simplify-cfg is left out: on the pinned tree every compilation with it ends in
+    #  CompilerPanic("Invalid Venom pass ordering ... RevertToAssert must run immediately before SimplifyCFGPass") - there is no
+    #  behaviour to compare; recorded in DESIGN.md section 4 as an observation)
+    FLAGS = ["inlining", "cse", "sccp", "load_elimination", "dead_store_elimination", "algebraic_optimization", "branch_optimization", "assert_elimination", "mem2var", "remove_unused_variables"]
+    FLAG_T = ("arith.int128.add", "cmp.int256.lt", "if.else", "for.range", "for.break", "storage.rw", "storage.struct", "internal.tuple", "internal.memarg", "event.static", "dispatch.six", "extcall.view",
+              "sarray.index", "convert.uint256.int128", "assert.reason") if quick else tuple(k for k in T if not any(h in k for h in HEAVY) and not k.startswith(DYNAMIC + ("lock.",)))
+    for tid in FLAG_T:
+        if tid not in T:
+            continue
+        mods = ["+no:" + f for f in FLAGS] + ["+inline:0", "+inline:1000", "+debug"]
+        for m in mods:
+            J.append({"id": f"C02/G/same-behaviour[{tid};V-O2~V-O2{m};cancun]", "fn": "vverif.contracts.relational:job_rel", "args": (tid, T[tid], "V-O2", "V-O2" + m, "cancun"), "functions": R.FUNCS, "engine": "GenVC"})
+        J.append({"id": f"C02/G/same-behaviour[{tid};L-gas~L-gas+debug;cancun]", "fn": "vverif.contracts.relational:job_rel", "args": (tid, T[tid], "L-gas", "L-gas+debug", "cancun"), "functions": R.FUNCS, "engine": "GenVC"})
     return J
 
 
